@@ -402,7 +402,7 @@ def solve_linear(nodes, arity, xs, a, b, target, k):
     return (target - f0) / slope
 
 
-def probe_inputs(d, seed=1, per_path=6, max_total=400):
+def probe_inputs(d, seed=1, per_path=6, max_total=900):
     """concrete inputs for function record d (from sym.jsonl): on-path samples and boundary points"""
     rng = random.Random(seed)
     arity = d["arity"]
@@ -484,6 +484,18 @@ def probe_inputs(d, seed=1, per_path=6, max_total=400):
                 vals = eval_nodes(nodes, xs)
                 if all(cond_holds(c, vals) is not False for c in conds):
                     push(xs, "path %d (conditions solved in sequence)" % pi)
+        # (D) scale probes: a contiguous block of inputs (one vector / point / column argument) made very small, very large
+        #     or zero, the rest generic — reaches tests of the form "is this derived vector negligible"
+        if pi == 0:
+            for size in (1, 2, 3, 4):
+                for off in range(0, max(arity - size + 1, 0)):
+                    for fct in (Fraction(1, 2 ** 30), Fraction(1, 2 ** 70), Fraction(2 ** 30), Fraction(0)):
+                        xs = rnd_fixed(rng, arity)
+                        if any((off + j) in conc for j in range(size)):
+                            continue
+                        for j in range(size):
+                            xs[off + j] = xs[off + j] * fct
+                        push(xs, "inputs %d..%d scaled by %s" % (off, off + size - 1, fct))
         # (B) boundary of each comparison, other comparisons of the path respected where possible
         for ci, c in enumerate(conds):
             if c["op"] not in ("eqb", "ltb", "leb", "abs_diff_eq", "ulps_eq", "relative_eq"):
